@@ -2,7 +2,7 @@
 // E-dmg: BOUNDED stand-in by EXHAUSTIVE ENUMERATION OF SINGLE-SITE DAMAGE over a fixed family of WAL layouts, executed natively (cargo test)
 // against the real MultiRecordLog::open on real files -- not a proof and not symbolic.  Used like E-hist (DESIGN.md 13.13): thorough tier, and
 // quick-tier fall-back when the deductive verdict is "undecided".  Public API + raw edits of the WAL files only.
-// Layouts: 42 scenarios built through the public API (policy Always(Flush), no file is garbage-collected): an entry ending / starting with
+// Layouts: 43 scenarios built through the public API (policy Always(Flush), no file is garbage-collected): an entry ending / starting with
 // k in {0,1,6,7,8,9,40} bytes left in its 32 KiB block, 1-frame, 2-frame and 3-frame entries, a 4-record batch (last record empty) whose
 // record boundary falls one byte before / exactly on / one byte after a frame boundary, delete + re-create of a queue, entries spanning a WAL
 // file boundary, truncations (legitimate head removal of a batch, truncation of an empty queue into the future).
@@ -368,6 +368,9 @@ mod verif_enum_dmg {
             let mut s = pre(); s.extend([Append("a", vec![8]), Align(k), Append("a", vec![sz]), Append("b", vec![10]), Append("a", vec![10])]);
             v.push((format!("{what}-frames-ending-at-the-block-end"), s));
         }
+        // one batch larger than a WAL file (6 records of 40 000 bytes: 8 frames over two files): still ONE entry, all or nothing
+        let mut s = pre(); s.extend([Append("a", vec![5]), Append("a", vec![40_000; 6]), Append("b", vec![10]), Append("a", vec![10])]);
+        v.push(("batch-larger-than-a-file".to_string(), s));
         let mut s = pre(); s.extend([Append("a", vec![10, 20]), Delete("a"), Create("a"), Append("a", vec![30]), Append("b", vec![10]), Append("a", vec![11])]);
         v.push(("delete-recreate".to_string(), s));
         for k in [0usize, 6, 7, 500] {
